@@ -142,6 +142,126 @@ Definition spec_run (ops : list op) : list obs := rev (s_log (s_destroy (fold_le
 
 End WithEnv.
 
+(* ---------------------------------------------------------------- second formulation *)
+(* The same demands with the snapshot kept as a queue: at the start of an iteration the due
+   timers (those with deadline <= now, in key order) followed by the deferred callbacks are
+   taken out of the pending structures into [q_snap]; the iteration pops and invokes them one
+   by one; cancel removes a watch wherever it is, the snapshot included.  This is the
+   formulation C17_refines is proved against (LoopRefine.v); the oracle demands in addition
+   that both formulations give the same log on every case. *)
+Record qst := mkQ {
+  q_pq : list watch; q_def : list watch; q_snap : list watch;
+  q_ios : list watch; q_sigs : list watch; q_procs : list watch;
+  q_next : Z; q_now : Z; q_iter : Z; q_log : list obs }.
+
+Definition qst0 : qst := mkQ [] [] [] [] [] [] 0 0 0 [].
+
+Definition q_emit (s : qst) (w : watch) (flags : Z) : qst :=
+  mkQ (q_pq s) (q_def s) (q_snap s) (q_ios s) (q_sigs s) (q_procs s) (q_next s) (q_now s) (q_iter s)
+      (OEv (mkE (w_id w) (w_kind w) flags (q_iter s) (q_now s) (w_x w)) :: q_log s).
+
+Definition q_notify (s : qst) (w : watch) : qst := if w_unbind w then q_emit s w EV_UNBIND else s.
+
+Definition q_cancel (s : qst) (id : Z) : qst :=
+  match find_remove id (q_pq s) with
+  | Some (w, l) => q_notify (mkQ l (q_def s) (q_snap s) (q_ios s) (q_sigs s) (q_procs s) (q_next s) (q_now s) (q_iter s) (q_log s)) w
+  | None =>
+  match find_remove id (q_def s) with
+  | Some (w, l) => q_notify (mkQ (q_pq s) l (q_snap s) (q_ios s) (q_sigs s) (q_procs s) (q_next s) (q_now s) (q_iter s) (q_log s)) w
+  | None =>
+  match find_remove id (q_snap s) with
+  | Some (w, l) => q_notify (mkQ (q_pq s) (q_def s) l (q_ios s) (q_sigs s) (q_procs s) (q_next s) (q_now s) (q_iter s) (q_log s)) w
+  | None =>
+  match find_remove id (q_ios s) with
+  | Some (w, l) => q_notify (mkQ (q_pq s) (q_def s) (q_snap s) l (q_sigs s) (q_procs s) (q_next s) (q_now s) (q_iter s) (q_log s)) w
+  | None =>
+  match find_remove id (q_sigs s) with
+  | Some (w, l) => q_notify (mkQ (q_pq s) (q_def s) (q_snap s) (q_ios s) l (q_procs s) (q_next s) (q_now s) (q_iter s) (q_log s)) w
+  | None =>
+  match find_remove id (q_procs s) with
+  | Some (w, l) => q_notify (mkQ (q_pq s) (q_def s) (q_snap s) (q_ios s) (q_sigs s) l (q_next s) (q_now s) (q_iter s) (q_log s)) w
+  | None => s
+  end end end end end end.
+
+Section Queue.
+Variable env : Z -> list action.
+
+Definition q_action (s : qst) (a : action) : qst :=
+  let fresh k fl cb x := mkW (q_next s) k (f_unbind fl) (f_destroy fl) cb x in
+  match a with
+  | ATimer d fl cb =>
+      mkQ (pq_insert (fresh KTimer fl cb (q_now s + d)) (q_pq s)) (q_def s) (q_snap s) (q_ios s) (q_sigs s) (q_procs s)
+          (q_next s + 1) (q_now s) (q_iter s) (q_log s)
+  | ALater fl cb =>
+      mkQ (q_pq s) (insert_watch (f_first fl) (q_def s) (fresh KLater fl cb 0)) (q_snap s) (q_ios s) (q_sigs s) (q_procs s)
+          (q_next s + 1) (q_now s) (q_iter s) (q_log s)
+  | AWatch KIo _ fl cb =>
+      mkQ (q_pq s) (q_def s) (q_snap s) (insert_watch (f_first fl) (q_ios s) (fresh KIo fl cb 0)) (q_sigs s) (q_procs s)
+          (q_next s + 1) (q_now s) (q_iter s) (q_log s)
+  | AWatch KSig x fl cb =>
+      mkQ (q_pq s) (q_def s) (q_snap s) (q_ios s) (insert_watch (f_first fl) (q_sigs s) (fresh KSig fl cb x)) (q_procs s)
+          (q_next s + 1) (q_now s) (q_iter s) (q_log s)
+  | AWatch KProc _ fl cb =>
+      mkQ (q_pq s) (q_def s) (q_snap s) (q_ios s) (q_sigs s) (insert_watch (f_first fl) (q_procs s) (fresh KProc fl cb 0))
+          (q_next s + 1) (q_now s) (q_iter s) (q_log s)
+  | AWatch _ _ _ _ => s
+  | ACancel id => q_cancel s id
+  | ANop => s
+  end.
+
+Definition q_actions (s : qst) (l : list action) : qst := fold_left q_action l s.
+
+(* pop and invoke until the snapshot is empty; the snapshot only shrinks, so its length on
+   entry bounds the number of rounds *)
+Fixpoint q_loop (n : nat) (s : qst) : qst :=
+  match n with
+  | O => s
+  | S n' =>
+      match q_snap s with
+      | [] => s
+      | w :: r =>
+          let s1 := mkQ (q_pq s) (q_def s) r (q_ios s) (q_sigs s) (q_procs s) (q_next s) (q_now s) (q_iter s) (q_log s) in
+          q_loop n' (q_actions (q_emit s1 w (EV_FIRE + EV_UNBIND)) (env (w_cb w)))
+      end
+  end.
+
+Definition q_msec (s : qst) : Z :=
+  match q_def s with
+  | _ :: _ => 0
+  | [] => match q_pq s with
+          | [] => -1
+          | h :: _ => Z.max 0 ((w_x h - q_now s) / 1000)
+          end
+  end.
+
+Definition q_tick (sleep : bool) (dt : Z) (s : qst) : qst :=
+  let s1 := mkQ (q_pq s) (q_def s) (q_snap s) (q_ios s) (q_sigs s) (q_procs s) (q_next s) (q_now s + dt) (q_iter s + 1) (q_log s) in
+  let msec := if sleep then q_msec s1 else 0 in
+  let nw := if sleep && (0 <? msec) then q_now s1 + msec * 1000 else q_now s1 in
+  let due := filter (fun w => w_x w <=? nw) (q_pq s1) in
+  let rest := filter (fun w => negb (w_x w <=? nw)) (q_pq s1) in
+  let s2 := mkQ rest [] (q_snap s1 ++ due ++ q_def s1) (q_ios s1) (q_sigs s1) (q_procs s1) (q_next s1) nw (q_iter s1)
+                (OPoll msec :: q_log s1) in
+  q_loop (length (q_snap s2)) s2.
+
+Definition q_destroy (s : qst) : qst :=
+  let s0 := mkQ (q_pq s) (q_def s) (q_snap s) (q_ios s) (q_sigs s) (q_procs s) (q_next s) (q_now s) (-1) (q_log s) in
+  let s1 := fold_left (fun s w => if asked w then q_emit s w (EV_UNBIND + EV_DESTROY) else s)
+                      (q_ios s0 ++ q_pq s0 ++ q_def s0 ++ q_sigs s0 ++ q_procs s0) s0 in
+  mkQ [] [] (q_snap s1) [] [] [] (q_next s1) (q_now s1) (q_iter s1) (q_log s1).
+
+Definition q_op (s : qst) (o : op) : qst :=
+  match o with
+  | OAct a => q_action s a
+  | ORun dt => q_tick false dt s
+  | OOnce => q_tick true 0 s
+  end.
+
+Definition q_run_ops (ops : list op) : qst := fold_left q_op ops qst0.
+Definition qspec_run (ops : list op) : list obs := rev (q_log (q_destroy (q_run_ops ops))).
+
+End Queue.
+
 (* ---------------------------------------------------------------- the oracle *)
 
 Definition kind_eqb (a b : kind) : bool := kind_code a =? kind_code b.
@@ -179,6 +299,7 @@ Definition bag_eqb (l1 l2 : list obs) : bool :=
    observation that belongs to destruction is compared as a bag. *)
 Definition spec_checkb (env : Z -> list action) (ops : list op) (o : list obs) : bool :=
   let sp := spec_run env ops in
+  list_eqb obs_eqb sp (qspec_run env ops) &&     (* the two formulations agree on this case *)
   list_eqb obs_eqb (filter (fun x => negb (in_destroy x)) sp) (filter (fun x => negb (in_destroy x)) o) &&
   list_eqb (fun a b => Bool.eqb (in_destroy a) (in_destroy b)) sp o &&
   bag_eqb (filter in_destroy sp) (filter in_destroy o).
